@@ -48,6 +48,23 @@ def seeded_table():
             verdict, ", ".join(m.get("caught_by", [])) or "-"))
     return "\n".join(rows)
 
+def seed_summary():
+    tot, fin = 0, {}
+    first = {"input": 0, "nfi": 0, "missed": 0}
+    for d in sorted(glob.glob(os.path.join(VERIF, "seeded", "*", "meta.json"))):
+        m = json.load(open(d))
+        tot += 1
+        v = ((m.get("checks", {}) or {}).get(m["property"]) or {}).get("violation")
+        first["missed" if not v else ("nfi" if "no-failing-input-found" in v else "input")] += 1
+        f = (m.get("final") or {}).get("verdict", "not re-run")
+        fin[f] = fin.get(f, 0) + 1
+    names = {"input": "caught with a failing input", "no-failing-input-found": "caught, no failing input found", "missed": "not detected",
+             "patch-does-not-apply": "patch no longer applies (the code it edits was fixed since)", "not re-run": "not re-run yet", "error": "re-run error"}
+    out = ["%d seeded changes, all confirmed (suite green with the change, demo fails with it and passes without)." % tot,
+           "When first imported, the seed's own property check: %d caught with a failing input, %d caught without one, %d not detected." % (first["input"], first["nfi"], first["missed"]),
+           "With the machinery as committed: " + "; ".join("%d %s" % (n, names.get(k, k)) for k, n in sorted(fin.items())) + "."]
+    return "\n".join(out)
+
 def findings_table():
     out = []
     for line in open(os.path.join(VERIF, "known_findings.txt")):
@@ -56,7 +73,7 @@ def findings_table():
             out.append("* `" + line[:line.index(" ")] + "` " + line[line.index(" ") + 1:])
     return "\n".join(out)
 
-TABLES = {"checks": checks_table, "seeded": seeded_table, "findings": findings_table}
+TABLES = {"checks": checks_table, "seeded": seeded_table, "findings": findings_table, "seedsummary": seed_summary}
 p = os.path.join(VERIF, "DESIGN.md")
 s = open(p).read()
 for name, fn in TABLES.items():
